@@ -42,6 +42,9 @@ func BuildBatcherFromArguments(c *cli.Context) *batchers.Batcher {
 	if batchSize < 1 {
 		logger.Fatalf(ExitCodeInvalidUsage, "Batch size must be >= 1, is %d", batchSize)
 	}
+	if batchBuffer < 0 {
+		logger.Fatalf(ExitCodeInvalidUsage, "Batch buffer must be >= 0, is %d", batchBuffer)
+	}
 	if concurrentReaders < 1 {
 		logger.Fatalf(ExitCodeInvalidUsage, "Must have at least 1 reader")
 	}
